@@ -7,7 +7,9 @@ def errName : Err → String
   | .innerDynamic => "innerDynamic" | .rankMismatch => "rankMismatch" | .zeroDiv => "zeroDiv"
   | .full => "full" | .notStatic => "notStatic" | .noMemSpace => "noMemSpace"
   | .unknownMem => "unknownMem" | .noUse => "noUse" | .firstUseNotCast => "firstUseNotCast"
-  | .badSolution => "badSolution" | .notClosed => "notClosed"
+  | .badSolution => "badSolution" | .notClosed => "notClosed" | .solverFull => "solverFull"
+  | .solverFuel => "solverFuel" | .misalignedStart => "misalignedStart" | .badMode => "badMode"
+  | .noAlignAttr => "noAlignAttr"
 
 /-- a model error is an ordinary answer `{"error": name}` (protocol errors use `err`) -/
 def jErr (e : Err) : Json := Json.mkObj [("error", Json.str (errName e))]
@@ -127,6 +129,37 @@ def mini : Handler := fun j => do
     return Json.mkObj [("bufs", jList jBuf r.bufs), ("deallocs", jList jPair r.deallocs),
       ("placed", jList jPlaced (r.placed.map (·.2))), ("contract", jList Json.bool contract)]
 
+def bufOfJson (j : Json) : Except String Buf := do
+  match (← arr j).toList with
+  | [s, e, sz, al] => return ⟨0, ← nat s, ← nat e, ← nat sz, ← nat al, 0, 0⟩
+  | _ => throw "bad buffer"
+
+/-- args: {"bufs": [[start, end, size, align]], "cap": n} -> [offset] | {"error": e}
+ (the first-fit solver, compared with the harness stand-in of `minimalloc` on every problem) -/
+def firstfitH : Handler := fun j => do
+  let bufs ← listOf bufOfJson (← field j "bufs")
+  let cap ← nat (← field j "cap")
+  -- buffers are told apart by their position (`res` field), as the stub tells them apart by identity
+  let bufs := bufs.zipIdx.map fun (b, i) => { b with res := i }
+  match firstFit bufs cap with
+  | .ok offs => return jList jNat offs
+  | .error e => return jErr e
+
+/-- args: {"mode", "mems", "prog", "checked": bool} -> {"bufs", "deallocs", "placed", "wellord"} | {"error": e}
+ (`MiniMallocate` with the first-fit solver plugged in; `checked` = with the proposed fix FC11a) -/
+def miniff : Handler := fun j => do
+  let vm ← modeOfJson (← field j "mode")
+  let p ← listOf topOfJson (← field j "prog")
+  let mems ← listOf memOfJson (← field j "mems")
+  let checked ← bool (← field j "checked")
+  let res : Except Err MiniResult :=
+    if checked then miniMallocateFFChecked vm mems p else miniMallocateFF vm mems p
+  match res with
+  | .error e => return jErr e
+  | .ok r =>
+    return Json.mkObj [("bufs", jList jBuf r.bufs), ("deallocs", jList jPair r.deallocs),
+      ("placed", jList jPlaced (r.placed.map (·.2))), ("wellord", Json.bool (wellOrdB (flat p)))]
+
 /-- args: {"sizes": [n|null]} -> bool (`allocs_are_static`) -/
 def auto : Handler := fun j => do
   let sizes ← listOf (optOf nat) (← field j "sizes")
@@ -139,8 +172,33 @@ def descr : Handler := fun j => do
   let (p, q, o, s) := descriptor a sh
   return Json.arr #[jNat p, jNat q, jNat o, jList jNat s]
 
+/-- args: {"mode": str, "sizes": [n|null], "blocks": n} -> "dynamic" | "static" | "minimalloc" | "noop" | {"error": e}
+ (`SnaxAllocatePass.apply` dispatch, `allocs_are_static`, single-block guard of MiniMallocate) -/
+def select : Handler := fun j => do
+  let m ← str (← field j "mode")
+  let sizes ← listOf (optOf nat) (← field j "sizes")
+  let nb ← nat (← field j "blocks")
+  match modeOfString m with
+  | .error e => return jErr e
+  | .ok mode =>
+    match selectPattern mode sizes with
+    | .dynamicAllocs => return Json.str "dynamic"
+    | .staticAllocs => return Json.str "static"
+    | .miniMallocate => return Json.str (if miniApplies nb then "minimalloc" else "noop")
+
+/-- args: {"allocs": [[isL1: bool, align|null]]} -> [align | null (= left alone)] | {"error": e} -/
+def dynamicH : Handler := fun j => do
+  let allocs ← listOf (fun a => do
+    match (← arr a).toList with
+    | [l, al] => return (← bool l, ← optOf nat al)
+    | _ => throw "bad alloc") (← field j "allocs")
+  match dynamicAllocs allocs with
+  | .error e => return jErr e
+  | .ok outs => return jList (fun o => match o with | .left => Json.null | .call a => jNat a) outs
+
 def handlers : List (String × Handler) :=
   [("c11.size", size), ("c11.size_nolayout", sizeNoLayout), ("c11.static", static),
-   ("c11.lifetimes", lifetimesH), ("c11.mini", mini), ("c11.auto", auto), ("c11.descr", descr)]
+   ("c11.lifetimes", lifetimesH), ("c11.mini", mini), ("c11.auto", auto), ("c11.descr", descr),
+   ("c11.firstfit", firstfitH), ("c11.miniff", miniff), ("c11.select", select), ("c11.dynamic", dynamicH)]
 
 end SnaxVerif.Drv.C11
